@@ -17,7 +17,7 @@ import z3
 
 from . import engine as eng
 from . import shims
-from .ctx import SymCtx, ConcCtx, PathEnd, ReplayMismatch, Violation
+from .ctx import SymCtx, ConcCtx, PathEnd, ReplayMismatch, Violation, TapeEnd
 from .engine import Engine, HarnessError, frac_of
 
 VERIF = os.path.dirname(os.path.dirname(os.path.abspath(__file__)))
@@ -30,11 +30,11 @@ class _Hang(BaseException):
     pass
 
 
-def replay_concrete(hmod, cfg, inputs, wall_s=60):
+def replay_concrete(hmod, cfg, inputs, wall_s=60, complete=False):
     """run the harness on the unshimmed code with concrete inputs; returns dict"""
     was = dict(shims._installed)
     shims.uninstall()
-    conc = ConcCtx(inputs)
+    conc = ConcCtx(inputs, complete=complete)
     shims.set_ctx(conc)
     res = {"status": "ok", "failures": [], "observations": None}
 
@@ -52,6 +52,8 @@ def replay_concrete(hmod, cfg, inputs, wall_s=60):
                 hmod.run(conc, cfg)
     except PathEnd:
         pass
+    except TapeEnd:
+        res["truncated"] = True
     except _Hang:
         res["status"] = "hang"
         conc.failures.append(("hang", "no return within %ss" % wall_s, None))
@@ -167,7 +169,7 @@ def _worker(hname, cfgs, opts, tasks, results, widx):
                         st.counters["deadline_dropped"] = st.counters.get("deadline_dropped", 0) + len(stack)
                         break
                     pfx, mb = stack.pop()
-                    cx = SymCtx(E)
+                    cx = SymCtx(E, known_labels=set(st.cands.keys()))
                     shims.set_ctx(cx)
 
                     def fn(E_, cx=cx, cfg=cfg):
@@ -203,6 +205,9 @@ def _worker(hname, cfgs, opts, tasks, results, widx):
                     if E.maybe_infeasible:
                         st.maybe += 1
                     st.unknown.extend(cx.unknown_checks[:5])
+                    for key in cx.repeats:
+                        if key in st.cands:
+                            st.cands[key]["count"] += 1
                     for v in cx.candidates:
                         key = (v.label, v.exc)
                         if key not in st.cands:
@@ -213,13 +218,13 @@ def _worker(hname, cfgs, opts, tasks, results, widx):
                         else:
                             st.cands[key]["count"] += 1
                     # engine validation: concrete replay of this path's model must agree
-                    if status == "done" and not cx.candidates and (st.validated < opts["validate_first"] or st.done % opts["validate_every"] == 0):
+                    if status == "done" and not cx.candidates and not cx.repeats and (st.validated < opts["validate_first"] or st.done % opts["validate_every"] == 0):
                         m = cx._nice_model(strict_only=True)
                         if m is None:
                             st.counters['validation_skipped_tie_only_path'] = st.counters.get('validation_skipped_tie_only_path', 0) + 1
                         if m is not None:
                             inputs = cx._inputs_from_model(m)
-                            res = replay_concrete(hmod, cfg, inputs)
+                            res = replay_concrete(hmod, cfg, inputs, complete=True)
                             why = None
                             if res["status"] != "ok":
                                 why = res["status"] + ": " + res.get("why", "")
